@@ -75,6 +75,7 @@ Definition item_okb (it : item) : bool :=
   | IPI t attrs ws => is_name_b false t && forallb attr_okb attrs && all_ws_b ws
   | IStart n attrs ws void => is_name_b false n && negb (getz n 0 =? 33) && forallb attr_okb attrs && all_ws_b ws
   | IEnd n ws => is_name_b false n && all_ws_b ws
+  | ITag _ _ _ _ _ => false   (* the general tag opener is not covered by the executable check *)
   end.
 
 Fixpoint no_adjacent_text_b (l : list item) : bool :=
@@ -140,7 +141,7 @@ Qed.
 
 Lemma item_okb_sound it : item_okb it = true -> item_ok it.
 Proof.
-  destruct it as [t|b|b|ps|n attrs ws|n attrs ws void|n ws]; cbn [item_okb item_ok]; intros H; b2p.
+  destruct it as [t|b|b|ps|n attrs ws|n attrs ws void|n ws|pi n gs ws k]; cbn [item_okb item_ok]; intros H; try discriminate; b2p.
   - split; [destruct t; discriminate|]. match goal with H : forallb _ t = true |- _ => revert H end.
     apply forallb_Forall. intros x Hx. lia.
   - split; [apply nz_b_sound; assumption|apply no_occ_b_sound; assumption].
@@ -193,4 +194,58 @@ Theorem xml_doctype_single_quote_proof :
 Proof.
   split; [apply ex_squote_items_bytes|]. rewrite <- ex_squote_items_bytes.
   apply xml_wellformed_tokens_proof. apply ex_squote_items_ok.
+Qed.
+
+(* ---- the general tag opener: processing instructions whose content is not pseudo-attributes ------------------- *)
+(* a conforming attribute is a piece with a quoted value *)
+Definition g_of_attr (a : attr) : gattr := mkG (a_lead a) (a_name a) (VQuo (a_ws1 a) (a_ws2 a) (a_q a) (a_val a)).
+
+Lemma render_g_of_attrs attrs : render_gattrs (map g_of_attr attrs) = render_attrs attrs.
+Proof. unfold render_gattrs, render_attrs. rewrite map_map. reflexivity. Qed.
+
+Lemma expect_g_of_attrs attrs : map expect_gattr (map g_of_attr attrs) = map expect_attr attrs.
+Proof. rewrite map_map. reflexivity. Qed.
+
+(* the property-conforming PI and start tag are the special case of the general opener *)
+Theorem xml_tag_opener_conforming_proof : forall t attrs ws,
+  render_item (IPI t attrs ws) = render_item (ITag true t (map g_of_attr attrs) ws TStartTagClosePI) /\
+  expect_item (IPI t attrs ws) = expect_item (ITag true t (map g_of_attr attrs) ws TStartTagClosePI) /\
+  (forall void : bool, let k := if void then TStartTagCloseVoid else TStartTagClose in
+     render_item (IStart t attrs ws void) = render_item (ITag false t (map g_of_attr attrs) ws k) /\
+     expect_item (IStart t attrs ws void) = expect_item (ITag false t (map g_of_attr attrs) ws k)).
+Proof.
+  intros t attrs ws. cbn [render_item expect_item]. rewrite render_g_of_attrs, expect_g_of_attrs.
+  split; [reflexivity|]. split; [reflexivity|]. intros void. destruct void; split; reflexivity.
+Qed.
+
+(* <?p a>b?><a/> as the lexer sees it: a PI opener with the piece " a" closed by '>', then text *)
+Definition ex_pi_gt_items : list item :=
+  [ ITag true [112] [mkG [32] [97] VNone] [] TStartTagClose; IText [98; 63; 62]; IStart [97] [] [] true ].
+
+Example ex_pi_gt_items_ok : doc_ok ex_pi_gt_items.
+Proof.
+  split.
+  - unfold ex_pi_gt_items. repeat apply Forall_cons; try apply Forall_nil; cbn [item_ok].
+    + split; [split; [discriminate|repeat constructor]|]. split; [discriminate|]. split; [constructor|].
+      split; [left; reflexivity|]. split.
+      * cbn [gattrs_ok render_gattrs map concat app closer_bytes]. split; [|exact I].
+        split; [repeat constructor|]. cbn [g_val g_name]. split; [discriminate|]. split; [split; [reflexivity|exact I]|].
+        split.
+        -- exists 62, []. split; [reflexivity|]. split; [reflexivity|]. intros [H|H]; discriminate.
+        -- exists [], 62, []. split; [reflexivity|]. split; [constructor|]. split; [reflexivity|discriminate].
+      * exists 32, [97; 62]. split; [reflexivity|]. split; [reflexivity|]. intros [H|H]; discriminate.
+    + split; [discriminate|repeat constructor; discriminate].
+    + split; [split; [discriminate|repeat constructor]|]. split; [discriminate|]. split; constructor.
+  - cbn. intuition discriminate.
+Qed.
+
+Theorem xml_pi_content_exact_proof :
+  render_doc ex_pi_gt_items = ex_pi_gt /\
+  lexes (xml_init ex_pi_gt) (expect_doc ex_pi_gt_items) 1 /\
+  map (fun t => fst (fst (fst t))) (expect_doc ex_pi_gt_items) =
+    [TStartTagPI; TAttribute; TStartTagClose; TText; TStartTag; TStartTagCloseVoid].
+Proof.
+  assert (E : render_doc ex_pi_gt_items = ex_pi_gt) by (vm_compute; reflexivity).
+  split; [exact E|]. split; [|vm_compute; reflexivity]. rewrite <- E.
+  apply xml_wellformed_tokens_proof. apply ex_pi_gt_items_ok.
 Qed.
